@@ -86,3 +86,7 @@ pub(crate) fn from_bytes_v2(bytes: Bytes) -> Result<HpoTermInternal, HpoError> {
     }
     Ok(term)
 }
+
+#[cfg(kani)]
+#[path = "/verif/kani/binary_term.rs"]
+mod verif_kani;
